@@ -89,8 +89,16 @@ def fixlen(x, maxlen=8):
     return x
 
 
+def shape(shape_id):
+    if shape_id in SHAPES:
+        return SHAPES[shape_id]
+    from lib.grid import ROWS  # generated shapes (no content holes)
+
+    return ROWS[shape_id]
+
+
 def mk_ir(shape_id, p=None, d=None, s=None, b=None):
-    summary, params, ret = SHAPES[shape_id]
+    summary, params, ret = shape(shape_id)
     p, s = fixlen(p), fixlen(s)
     sub = {P: p, D: d, S: s, B: b}
 
@@ -231,7 +239,8 @@ def entry_diffs(got, want, kind, defaults_on, ws=False, is_return=False, name=""
         out.append("typ-lost")
     elif gt != wt:
         out.append("typ-changed")
-    c = prose_code(got.get("doc"), want.get("doc"), w_has_d and defaults_on, ws)
+    # (a default acquired on the way - the caller decides whether that is permitted - is announced by a sentence like any other: I1)
+    c = prose_code(got.get("doc"), want.get("doc"), (w_has_d or "default" in got) and defaults_on, ws)
     if c:
         out.append(c)
     if w_has_d and (defaults_on or kind not in DOC_KINDS):
